@@ -56,6 +56,7 @@ macro_rules! dispatch {
             "C02" => $f(&props::c02::C02, $($arg),*),
             "C16" => $f(&props::c16::C16, $($arg),*),
             "C11" => $f(&props::c11::C11, $($arg),*),
+            "C18" => $f(&props::c18::C18, $($arg),*),
             _ => {
                 eprintln!("unknown property {}", $id);
                 2
@@ -103,6 +104,8 @@ fn main() {
             let code = props::c16::child_main(&args[2], args[3].parse().unwrap_or(u64::MAX), &args[4]);
             std::process::exit(code);
         }
+        "c18-pool-child" => std::process::exit(props::c18::pool_child(&args[2])),
+        "c18-lazy-child" => std::process::exit(props::c18::lazy_child(&args[2])),
         "exp-timing" => {
             let _ctx = make_ctx("exp", Tier::Quick, false);
             exp::timing();
